@@ -79,7 +79,16 @@ pub fn run_inner(case: &Case, out: &mut Outcome) -> Result<(), Bad> {
     let is_set = case.h("coll") == 1;
     let mode = case.h("mode") % 4;
     let hint_sel = case.h("hint") as usize;
-    let claim = if hint_sel == 0 { None } else if hint_sel == 1 { Some(entries.len()) } else { Some(HINTS[hint_sel % HINTS.len()]) };
+    // None, exact, understated (half, one) and the fixed list (0, 1, around the cap, huge)
+    let claim = match hint_sel {
+        0 => None,
+        1 => Some(entries.len()),
+        8 => Some(entries.len() / 2),
+        9 => Some(1),
+        10 => Some(0),
+        11 => Some(entries.len() + 1),
+        n => Some(HINTS[n % HINTS.len()]),
+    };
     // element types other than the tracked pair: zero-sized, one byte, wide, bool, strings
     let etype = case.h("etype");
     if etype != 0 {
